@@ -739,7 +739,7 @@ Qed.
 Lemma exec_splice_f c w st a vid sb eb rk n wrong_at claimed k r :
   cfg_wf c -> WRep c w st -> ufuse (wuw w) = Some k ->
   sp_splice_f c st (unext (wuw w)) a vid sb eb rk n wrong_at claimed k = Some r ->
-  adm_splice c w vid sb eb n ->
+  adm_splice c w vid sb eb claimed ->
   res_matches_f c w (exec c (OSplice a vid sb eb [] FinDrop rk n wrong_at claimed) w) r.
 Proof.
   intros Hwf HW Hfuse Hr Hadm. unfold sp_splice_f in Hr.
